@@ -38,9 +38,23 @@ def conc_run(ctx, spec, flavor='rel', features=(), **kw):
     return ctx.add(tag(r, flavor=flavor, features=features))
 
 
+SPECS = {
+    'a_fast': {'name': 'a_fast', 'setup': 'cs_setup1', 'threads': [('cs_warm', 'cs_r_load'), ('cs_warm', 'cs_w_store1')],
+               'final': 'cs_final1', 'covers': [11, 13]},
+    'a_full': {'name': 'a_full', 'setup': 'cs_setup1', 'threads': [('cs_warm', 'cs_r_load_full'), ('cs_warm', 'cs_w_store1')],
+               'final': 'cs_final1', 'covers': [13]},
+    'b_fallback': {'name': 'b_fallback', 'setup': 'cs_setup1',
+                   'threads': [('cs_fill8_t1', 'cs_r_fallback_then_release'), ('cs_warm', 'cs_w_store1')],
+                   'final': 'cs_final1', 'covers': [13]},
+    'lin2': {'name': 'lin2', 'setup': 'cs_setup1', 'threads': [('cs_warm', 'cs_r_load2'), ('cs_warm', 'cs_w_store12')],
+             'final': 'cs_final1', 'covers': [13]},
+    'swap2': {'name': 'swap2', 'setup': 'cs_setup1', 'threads': [('cs_warm', 'cs_w_swap1'), ('cs_warm', 'cs_w_swap2')],
+              'final': 'cs_final1', 'covers': [13]},
+}
+
+
 @prop('C01')
 def c01(ctx):
     ctx.bounds.update({'threads': 2, 'ops_per_thread': 1, 'loop_bound_symbolic_iterations': 4, 'memory_model': 'SC'})
-    conc_run(ctx, {'name': 'basic', 'setup': 'basic_setup',
-                   'threads': [('basic_warm', 'basic_reader'), ('basic_warm', 'basic_writer')], 'covers': []},
-             loop_bound=4)
+    for name in (['a_fast'] if ctx.tier == 'quick' else ['a_fast', 'a_full', 'b_fallback']):
+        conc_run(ctx, SPECS[name], loop_bound=4)
